@@ -63,9 +63,16 @@ fn run(rng: &mut Rng, idx: u64, tier: Tier) -> CaseOut {
     let mut raw_states = Vec::new();
     // the last graph gives every variable its own number (>= need) of spare copies
     // ... and the one before it admits only a subset of the colours (custom unit set)
-    for extra in [0u16, 1, 2, 5, 98, 99] {
-        let k = need + if extra >= 98 { 0 } else { extra };
-        let built = if extra == 98 {
+    // ... and one whose unit set admits only the states with one fixed value of one variable (sanitised = raw only)
+    for extra in [0u16, 1, 2, 5, 97, 98, 99] {
+        let k = need + if extra >= 97 { 0 } else { extra };
+        let built = if extra == 97 {
+            match libg::guarded(|| libg::build_sys_state_restricted(&world.net, k, &world.cs.bits, rng)) {
+                Ok(Ok((s, _))) => Ok(s),
+                Ok(Err(_)) => continue,
+                Err(p) => Err(format!("PANIC {p}")),
+            }
+        } else if extra == 98 {
             match libg::guarded(|| libg::build_sys_colour_restricted(&world.net, k, &world.cs.bits, rng)) {
                 Ok(Ok(Some((s, _)))) => Ok(s),
                 // no parameters, or no colour left after the restriction
@@ -154,8 +161,11 @@ fn run(rng: &mut Rng, idx: u64, tier: Tier) -> CaseOut {
             let unit_raw = sys.graph.unit_colored_vertices();
             out.nontrivial = need >= 1 && !raw.is_empty() && &raw != unit_raw;
         }
-        if extra == 98 {
-            // a different graph (fewer colours): only "sanitised = raw" and compatibility are demanded of it
+        if extra == 97 {
+            out.count("graphs_with_restricted_states");
+        }
+        if extra == 97 || extra == 98 {
+            // a different graph (fewer colours / states): only "sanitised = raw" and compatibility are demanded of it
             continue;
         }
         sanitised.push((k, san));
